@@ -1,0 +1,115 @@
+package core
+
+import (
+	"github.com/jsightapi/jsight-api-core/catalog"
+	"github.com/jsightapi/jsight-api-core/directive"
+	"github.com/jsightapi/jsight-api-core/jerr"
+)
+
+// validateSchemas makes sure that every schema of the catalog can be serialised. The exchange schemas are compiled
+// lazily, on the first serialisation of the catalog; an error which is found only then (an undefined type inside an
+// "or" rule of a Path property, an invalid regular expression, a property overridden through "allOf", ...) could not
+// be reported to the author of the document anymore, so it is looked for here, at the end of the build.
+func (core *JApiCore) validateSchemas() *jerr.JApiError {
+	err := core.catalog.UserTypes.Each(func(_ string, v *catalog.UserType) error {
+		return serialisationError(v.Schema, v.Directive)
+	})
+	if err != nil {
+		return adoptError(err)
+	}
+
+	return adoptError(core.catalog.Interactions.Each(func(_ catalog.InteractionID, v catalog.Interaction) error {
+		switch i := v.(type) {
+		case *catalog.HTTPInteraction:
+			return core.validateHTTPInteractionSchemas(i)
+		case *catalog.JsonRpcInteraction:
+			if i.Params != nil {
+				if je := serialisationError(i.Params.Schema, i.Params.Directive); je != nil {
+					return je
+				}
+			}
+			if i.Result != nil {
+				if je := serialisationError(i.Result.Schema, i.Result.Directive); je != nil {
+					return je
+				}
+			}
+		}
+		return nil
+	}))
+}
+
+func (core *JApiCore) validateHTTPInteractionSchemas(i *catalog.HTTPInteraction) error {
+	if i.PathVariables != nil {
+		d := core.pathDirectiveFor(i)
+		if d.File() == nil { // no Path directive describes this path: nothing the author wrote can be wrong
+			if _, err := i.PathVariables.Schema.MarshalJSON(); err != nil {
+				return core.japiError(err.Error(), 0)
+			}
+		} else if je := serialisationError(i.PathVariables.Schema, d); je != nil {
+			return je
+		}
+	}
+	if i.Query != nil {
+		if je := serialisationError(i.Query.Schema, i.Query.Directive); je != nil {
+			return je
+		}
+	}
+	if r := i.Request; r != nil {
+		if r.HTTPRequestHeaders != nil {
+			if je := serialisationError(r.HTTPRequestHeaders.Schema, r.HTTPRequestHeaders.Directive); je != nil {
+				return je
+			}
+		}
+		if r.HTTPRequestBody != nil {
+			if je := serialisationError(r.HTTPRequestBody.Schema, r.HTTPRequestBody.Directive); je != nil {
+				return je
+			}
+		}
+	}
+	for _, response := range i.Responses {
+		if response.Headers != nil {
+			if je := serialisationError(response.Headers.Schema, response.Headers.Directive); je != nil {
+				return je
+			}
+		}
+		if response.Body != nil {
+			if je := serialisationError(response.Body.Schema, response.Directive); je != nil {
+				return je
+			}
+		}
+	}
+	return nil
+}
+
+// pathDirectiveFor returns the last Path directive that describes a parameter of the interaction's path.
+func (core *JApiCore) pathDirectiveFor(i *catalog.HTTPInteraction) directive.Directive {
+	var d directive.Directive
+	pp := pathParameters(i.Path().String())
+	for _, raw := range core.rawPathVariables {
+		if raw.imitated {
+			continue
+		}
+		for _, a := range raw.parameters {
+			for _, b := range pp {
+				if a == b {
+					d = raw.pathDirective
+				}
+			}
+		}
+	}
+	return d
+}
+
+type jsonMarshaler interface {
+	MarshalJSON() ([]byte, error)
+}
+
+func serialisationError(s jsonMarshaler, d directive.Directive) error {
+	if s == nil {
+		return nil
+	}
+	if _, err := s.MarshalJSON(); err != nil {
+		return d.KeywordError(err.Error())
+	}
+	return nil
+}
